@@ -418,6 +418,45 @@ def r10_3(ctx):
             raise AnchorVanished(f"{spec}: loop over loop_last(lines) not found")
 
 
+def _expand_live_render_helper(ctx, v, param):
+    """`self._live_render.<m>(renderables)` with <m> a method of LiveRender that the pinned source does not have: the list it returns
+    (path normal form of <m>, one path, list building folded), with its `self` replaced by the receiver and its parameter by the argument"""
+    import copy
+    from ..yieldpaths import Unsupported, paths_of, resolve
+    if not (isinstance(v, ast.Call) and isinstance(v.func, ast.Attribute) and norm(v.func.value).endswith("_live_render") and len(v.args) == 1 and not v.keywords):
+        return v
+    try:
+        lr = ctx.repo.cls("live_render:LiveRender")
+    except Exception:
+        return v
+    h = lr.method(v.func.attr)
+    if h is None or len(h.params) != 2:
+        return v
+    try:
+        P = [resolve(p) for p in paths_of(h.node)]
+    except Unsupported:
+        return v
+    if len(P) != 1:
+        return v
+    rets = [e for e in P[0] if e[0] == "return" and e[1] is not None]
+    if len(rets) != 1:
+        return v
+    try:
+        body = ast.parse(rets[0][1], mode="eval").body
+    except SyntaxError:
+        return v
+    recv, arg, hp = v.func.value, v.args[0], h.params[1]
+
+    class S(ast.NodeTransformer):
+        def visit_Name(self, node):
+            if node.id == "self":
+                return copy.deepcopy(recv)
+            if node.id == hp:
+                return copy.deepcopy(arg)
+            return node
+    return S().visit(body)
+
+
 def r10_4(ctx):
     ctx.rule("R10.4", "every print/log while live is wrapped: both hooks return [position_cursor(), *renderables, live_render] on a terminal; Console.print and Console.log pass their renderables through every render hook before rendering them")
     from ..yieldpaths import Unsupported, paths_of, resolve, select, show
@@ -439,6 +478,7 @@ def r10_4(ctx):
                     v = ast.parse(rets[0][1], mode="eval").body
                 except SyntaxError:
                     v = None
+                v = _expand_live_render_helper(ctx, v, param)
                 if isinstance(v, ast.List) and len(v.elts) == 3:
                     first, mid, last = v.elts
                     good = (isinstance(first, ast.Call) and isinstance(first.func, ast.Attribute) and first.func.attr == "position_cursor" and not first.args
@@ -460,6 +500,7 @@ def r10_4(ctx):
             except SyntaxError:
                 okall = False
                 continue
+            v = _expand_live_render_helper(ctx, v, param)
             if not (norm(v) == param or (isinstance(v, ast.List) and sum(1 for e in v.elts if isinstance(e, ast.Starred) and norm(e.value) == param) == 1)):
                 okall = False
         ctx.check(okall, f.fq, "return " + param, f.where, "every path returns the user's renderables (wrapped or not)", "process_renderables does not return the (wrapped) renderables on every path")
